@@ -77,8 +77,8 @@ def anti_crossing_loops(num_variables: int) -> BinaryQuadraticModel:
 
     Args:
         num_variables:
-            Number of variables used to generate the problem. Must be an even
-            number greater than or equal to 8.
+            Number of variables used to generate the problem. Must be a
+            multiple of 4 greater than or equal to 8.
 
     Returns:
         A binary quadratic model.
@@ -89,8 +89,8 @@ def anti_crossing_loops(num_variables: int) -> BinaryQuadraticModel:
 
     """
 
-    if num_variables % 2 or num_variables < 8:
-        raise ValueError('num_variables must be an even number >= 8')
+    if num_variables % 4 or num_variables < 8:
+        raise ValueError('num_variables must be a multiple of 4, >= 8')
 
     bqm = BinaryQuadraticModel(Vartype.SPIN)
 
